@@ -282,15 +282,18 @@ def ruShow (a : Nat) : List Char := ruShowGen false a
 def ruintShowGen (pinned : Bool) (K : Nat) (a : Nat) : List Char := if K = 6 then decDigits a else ruShowGen pinned a
 def ruintShow (K : Nat) (a : Nat) : List Char := ruintShowGen false K a
 
-/-- `mpz_to_ruint`: the `NBLIMB` low limbs of the magnitude-and-shift loop = the value modulo 2^(2^K)
-    (for a negative `b`, `get_ui` takes the low limb of |c| and `c >>= 64` is a floor shift) -/
+/-- the limb loop of `mpz_to_ruint`: `limb l = c.get_ui(); set_limb(a, l, i); c >>= 64;` (`get_ui` = low limb of |c|,
+    `>>=` = floor shift) -/
 def mpzToRuintLoop (bits : Nat) : Nat → Int → Nat → Nat → Nat
   | 0, _, _, acc => acc
   | n + 1, c, i, acc =>
     let l := c.natAbs % 2 ^ 64
     mpzToRuintLoop bits n (c / (2 ^ 64 : Int)) (i + 1) (acc + l * 2 ^ (64 * i))
 
-def mpzToRuint (K : Nat) (b : Int) : Nat := mpzToRuintLoop (2 ^ K) (2 ^ K / 64) b 0 0
+/-- `mpz_to_ruint` (since 52dbea7): `mpz_fdiv_r_2exp(c, b, 2^K)` — `c = b mod 2^(2^K)`, a negative `b` becomes its two's
+    complement — then the `NBLIMB` limbs of `c` -/
+def mpzToRuint (K : Nat) (b : Int) : Nat :=
+  mpzToRuintLoop (2 ^ K) (2 ^ K / 64) (b % ((2 ^ 2 ^ K : Nat) : Int)) 0 0
 
 /-- `operator>>(istream&, ruint<K>&)`: `mpz_class g; is >> g; mpz_to_ruint(a, g);` -/
 def ruintRead (K : Nat) (s : IStream) : Nat × IStream :=
@@ -385,6 +388,11 @@ structure RingIO where
       beyond, `double(v)` rounds) or a fixed-width conversion of the `Integer` read (Montgomery<ruint<K>>) — what happens
       beyond is C04's subject; 0 = no such limit -/
   exact : Nat := 0
+  /-- the indeterminate content of an uninitialised local (`Element tmp;`, `TT t;`, `int64_t tmp;`, `long deg;`) that a
+      native extractor leaves untouched when its sentry fails (stream already failed or at its end).  No theorem depends
+      on it (round trips never reach that branch); the driver evaluates the model with two different values and does not
+      judge a line whose outcome depends on it. -/
+  uninit : Int := 0
 deriving Repr
 
 /-- the canonical map Z → ring as the representative that `write` prints (C03/C04/C05 specification of `init`):
@@ -409,13 +417,13 @@ def elemRead (R : RingIO) (s : IStream) : Option (Int × IStream) :=
     let r := intRead 0 s
     if R.exact ≠ 0 ∧ r.1.natAbs > 2 ^ R.exact then none else some (initNorm R r.1, r.2)
   | .sint w =>
-    let r := nativeRead true w 0 s
+    let r := nativeRead true w R.uninit s
     if R.exact ≠ 0 ∧ r.1.natAbs > 2 ^ R.exact then none else some (initNorm R r.1, r.2)
   | .flt m => (floatRead m s).map (fun r => (initNorm R r.1, r.2))
 
 /-! ### Poly1Dom -/
 
-/-- `Poly1Dom::write(o, R)` after `setdegree` (`P` has no trailing zero): the infix form -/
+/-- one term `(c)*X^l` of the infix form (`c ≠ 0`, `l ≥ 1`): no coefficient when `c` is one, no exponent when `l = 1` -/
 def polyTerm (x : List Char) (c : Int) (l : Nat) : List Char :=
   (if c ≠ 1 then '(' :: elemShow c ++ ")*".toList else []) ++ x ++ (if l ≥ 2 then '^' :: decDigits l else [])
 
@@ -424,6 +432,7 @@ def polyTail (x : List Char) : List Int → Int → Nat → List Char
   | c :: cs, prev, l =>
     (if prev ≠ 0 then " + ".toList else []) ++ (if c ≠ 0 then polyTerm x c l else []) ++ polyTail x cs c (l + 1)
 
+/-- the body of `Poly1Dom::write` on the degree-normalised copy `P` (`0` when it is empty) -/
 def polyShow (x : List Char) (P : List Int) : List Char :=
   match P with
   | [] => ['0']
@@ -441,11 +450,39 @@ def polyReadCoeffs (R : RingIO) : Nat → IStream → Option (List Int × IStrea
 /-- `Poly1Dom::read(i, P)`: `long deg; i >> deg; init(P, Degree(deg)); for (; deg >= 0; --deg) _domain.read(i, P[deg]);`
     returns the coefficients `P[0] …` -/
 def polyRead (R : RingIO) (s : IStream) : Option (List Int × IStream) :=
-  let d := nativeRead true 64 0 s
+  let d := nativeRead true 64 R.uninit s
   if d.1 < 0 then some ([], d.2)
   else (polyReadCoeffs R (d.1.toNat + 1) d.2).map (fun r => (r.1.reverse, r.2))
 
-/-- `setdegree`: strip the zero leading coefficients -/
-def polyNorm (P : List Int) : List Int := (P.reverse.dropWhile (· = 0)).reverse
+/-- `setdegree`: drop the zero leading coefficients (the trailing zeros of the stored vector) -/
+def polyNorm : List Int → List Int
+  | [] => []
+  | c :: cs =>
+    match polyNorm cs with
+    | [] => if c = 0 then [] else [c]
+    | d :: ds => c :: d :: ds
+
+/-- `Poly1Dom::write(o, R)` on the vector as it is stored:
+    `if (R.size()) { Rep P; assign(P, R); setdegree(P); if (P.size()) { …infix form of P…; return o; } } return o << "0";` -/
+def polyWrite (x : List Char) (R : List Int) : List Char :=
+  match R with
+  | [] => ['0']
+  | _ :: _ =>
+    match polyNorm R with
+    | [] => ['0']
+    | c0 :: cs => polyShow x (c0 :: cs)
+
+/-! ### RecInt string constructors -/
+
+/-- `mpz_class m(s)` for the texts the printers produce (optional `-`, decimal digits without leading zero, so the
+    base-0 prefix detection of `mpz_class(const char*)` sees a decimal number or the single digit `0`); `none` = it throws -/
+def mpzClassOfString (s : List Char) : Option Int := mpzSetStr s
+
+/-- `ruint<K>::ruint(const char* b)`: `mpz_class m(b); mpz_to_ruint(*this, m);` -/
+def ruintOfString (K : Nat) (s : List Char) : Option Nat := (mpzClassOfString s).map (mpzToRuint K)
+
+/-- `rint<K> a("…")` goes through `template <typename T> rint(const T& b) : Value(b)`, i.e. `ruint<K>(const char*)`:
+    the bit pattern is `mpz_to_ruint` of the (possibly negative) number, read as a signed value -/
+def rintOfString (K : Nat) (s : List Char) : Option Int := (ruintOfString K s).map (toSigned K)
 
 end Givaro.Model.Text
